@@ -760,6 +760,75 @@ func runC04(c *core.Ctx) core.Meta {
 		}
 	}
 
+	// ---------------- R04.7 decoding never writes the shared tables ----------------
+	st7 := c.Rule("R04.7", "the rows of the decode table and the format table (InstType, Format) are written only while the disassembler is built (functions reachable only from NewDisassembler / package initialisation) or on objects freshly allocated in the writing function; a decoded instruction shares its table row through an embedded pointer, so a write on the decode path changes what this decoder instance returns for every other instruction of that opcode - decoding would depend on what was decoded before, and two decoder instances would disagree", 3)
+	{
+		initOnly := map[*ssa.Function]bool{}
+		var isInitOnly func(fn *ssa.Function, depth int) bool
+		isInitOnly = func(fn *ssa.Function, depth int) bool {
+			if v, ok := initOnly[fn]; ok {
+				return v
+			}
+			if depth > 8 {
+				return false
+			}
+			initOnly[fn] = false // cycles are not init-only
+			name := fn.Name()
+			if name == "NewDisassembler" || name == "init" || strings.HasPrefix(name, "init#") {
+				initOnly[fn] = true
+				return true
+			}
+			crs := pi.Callers(fn)
+			if len(crs) == 0 {
+				return false
+			}
+			for _, cr := range crs {
+				if !isInitOnly(cr, depth+1) {
+					return false
+				}
+			}
+			initOnly[fn] = true
+			return true
+		}
+		pi.Instrs(func(fn *ssa.Function, in ssa.Instruction) {
+			s, ok := in.(*ssa.Store)
+			if !ok {
+				return
+			}
+			fa, ok := s.Addr.(*ssa.FieldAddr)
+			if !ok {
+				return
+			}
+			owner := namedTypeName(fa.X.Type())
+			if owner != "insts.InstType" && owner != "insts.Format" {
+				return
+			}
+			st7.Instances++
+			// fresh object allocated here?
+			fresh := false
+			base := fa.X
+			for i := 0; i < 4; i++ {
+				switch t := base.(type) {
+				case *ssa.Alloc:
+					fresh = true
+				case *ssa.FieldAddr:
+					base = t.X
+					continue
+				case *ssa.UnOp:
+					base = t.X
+					continue
+				}
+				break
+			}
+			ok2 := fresh || isInitOnly(fn, 0)
+			st7.Ob(ok2)
+			st7.Sample("%s writes %s.%s (fresh object: %v, construction-time only: %v)", core.FuncName(fn), owner, fieldOfStruct(fa.X.Type(), fa.Field).Name(), fresh, isInitOnly(fn, 0))
+			if !ok2 {
+				c.ReportAt("R04.7", fn, in.Pos(), "table-row-write:"+owner+"."+fieldOfStruct(fa.X.Type(), fa.Field).Name(), core.FuncName(fn)+" writes "+owner+"."+fieldOfStruct(fa.X.Type(), fa.Field).Name()+" of an object it did not allocate and is reachable from decoding: the decoded instruction shares its decode-table row, so the write changes the table for every later (and earlier returned) instruction of that opcode in this decoder instance")
+			}
+		})
+	}
+
 	// ---------------- R04.6 callers use the error path ----------------
 	st6 := c.Rule("R04.6", "every caller of Disassembler.Decode uses the decoded instruction only on paths on which the returned error was found nil", 3)
 	for _, rel := range []string{instsPkg, "amd/emu", "amd/timing/cu"} {
